@@ -338,7 +338,7 @@ func patchTextVersion(codec string, doc []byte, v ver) ([]byte, bool) {
 func init() {
 	register(&Engine{
 		Name: "gate",
-		Rule: "request/response messages with EVERY field populated whatever the version (version-dependent ones included, inside nested structures, attributes and batches; the first batch item cycles through every registered operation x direction, attributes cycle through every standard name; 60% everything populated, 40% random subsets) encoded in binary, XML and JSON at each protocol version of {1.0 … 1.4} and of {0.0, 0.9, 1.5, 1.10, 2.0, 2.1, -1.3, 1.-1, 0.14, 0.(2^31-1), 2.(-2^31)}; the element tree at version V (binary: the independent parser's tree; XML/JSON: the element skeleton read with encoding/xml / encoding/json) must equal the tree at 1.4 with exactly the elements the pinned KMIP table (Pinned/Introduced.lean, served by the model: single source) introduces after V removed; the 1.4 bytes / documents with the header patched to V must decode to the full value; every pinned row must have removed and kept an element at least `floor` times; distinct = message x version; nontrivial = at least one element removed",
+		Rule: "request/response messages with EVERY field populated whatever the version (version-dependent ones included, inside nested structures, attributes and batches; the first batch item cycles through every registered operation x direction, attributes cycle through every standard name; 60% everything populated, 40% random subsets) encoded in binary, XML and JSON at each protocol version of {1.0 … 1.4} and of {0.0, 0.9, 1.5, 1.10, 2.0, 2.1, -1.3, 1.-1, 0.14, 0.(2^31-1), 2.(-2^31)}; the element tree at version V (binary: the independent parser's tree; XML/JSON: the element skeleton read with encoding/xml / encoding/json) must equal the tree at 1.4 with exactly the elements the pinned KMIP table (Pinned/Introduced.lean, served by the model: single source) introduces after V removed; the same expectation (binary tree; XML / JSON / human-readable text element skeleton) whatever the way the message is handed to the encoders — the four writers in turn, each meeting every way x version: Marshal{TTLV,XML,JSON,Text}, New{TTLV,XML,JSON,Text}Encoder().Any / TagAny, the same after Clear, nested in Encoder.Struct, after a 1.4 message on the same binary encoder without Clear, Stream.Send; message given as *T, T (by value: nothing addressable), **T, *any holding T or *T, []T, []*T, or as the field (T, *T, any holding T or *T) of a carrier struct passed by value or by pointer; every codec x way must have met `floor` messages with an element removed; the 1.4 bytes / documents with the header patched to V must decode to the full value; every pinned row must have removed and kept an element at least `floor` times; distinct = message x version; nontrivial = at least one element removed",
 		Run:  runGate,
 	})
 }
@@ -385,6 +385,7 @@ func runGate(ctx *Ctx) {
 	// the table is part of the evidence: one impl-only case per run documenting what was used
 	ctx.Res.Count(fmt.Sprintf("gate.pinned-rows=%d", len(pt.keys)))
 	st := &gateStats{removed: map[gateKey]int{}, kept: map[gateKey]int{}}
+	fs := &gateFormStats{checked: map[string]int{}}
 	reqT := planTarget{s.Roots["RequestMessage"], reflect.TypeFor[*kmip.RequestMessage](), 0}
 	respT := planTarget{s.Roots["ResponseMessage"], reflect.TypeFor[*kmip.ResponseMessage](), 0}
 	n := ctx.N(250, 5000)
@@ -447,7 +448,9 @@ func runGate(ctx *Ctx) {
 				ctx.Res.Violate(report.Violation{Property: "C03", Oracle: "independent-parse", Key: "gate:not-wellformed", Detail: err.Error(), Line: line})
 				continue
 			}
+			binOK := true
 			if gotR := gotTree.Render(); gotR != wantR {
+				binOK = false
 				gateViolate(ctx, "gating", gateKind(wantR, gotR), fmt.Sprintf("binary at version %s: %s", v, firstDiff(wantR, gotR)), line)
 			}
 			if vi < 5 {
@@ -460,6 +463,26 @@ func runGate(ctx *Ctx) {
 			}
 			// ---- the same in XML and JSON: the element skeleton read by an independent reader ----
 			wantSkel := skelOfTree(want)
+			// ---- the same message through every other way of handing it to the encoders (gate_forms.go) ----
+			rootTag := kmip.TagRequestMessage
+			if response {
+				rootTag = kmip.TagResponseMessage
+			}
+			for ci := range gateCodecs {
+				// the four writers in turn: each of them meets every way x every version on a quarter of the
+				// messages (the floor below is per codec x way)
+				if (i+vi)%len(gateCodecs) != ci {
+					continue
+				}
+				var base []byte
+				if ci == 0 && binOK {
+					base = got
+				}
+				gateForms(ctx, &gateCodecs[ci], x, rootTag, v, wantSkel, base, nontrivial, val, tg.dyn, fs)
+			}
+			if binOK && (i+vi)%len(gateCodecs) == 0 {
+				gateSecondMessage(ctx, x, hv, v, full, got, nontrivial, val, tg.dyn, fs)
+			}
 			for _, c := range textCodecs {
 				tline := fmt.Sprintf("#gate.text %s %d %s", c.name, tg.dyn, val)
 				doc, pn := guard("Marshal", func() []byte { return c.marshal(x.Interface()) })
@@ -544,6 +567,12 @@ func runGate(ctx *Ctx) {
 		ctx.Res.Distribution["gate.row.kept."+k.String()] += st.kept[k]
 		if st.removed[k] < floor || st.kept[k] < floor {
 			low = append(low, fmt.Sprintf("%s(removed %d, kept %d)", k, st.removed[k], st.kept[k]))
+		}
+	}
+	for _, k := range gateFormKeys() {
+		ctx.Res.Distribution["gate.form.nontrivial."+k] += fs.checked[k]
+		if fs.checked[k] < floor {
+			low = append(low, fmt.Sprintf("gate.form.%s(%d)", k, fs.checked[k]))
 		}
 	}
 	// the XML / JSON halves of the oracle must have run (they depend on reading the library's documents and on
